@@ -55,7 +55,7 @@ Theorem C07_lifecycle : forall P bk supply vault MP t0 sw sd ops,
 Proof. exact lifecycle_over_histories. Qed.
 Print Assumptions C07_lifecycle.
 
-From Sge Require Import Model.Orderbook Gen.kernels Proofs.GenKernels.
+From Sge Require Import Model.Orderbook Gen.kernels Proofs.GenMarket.
 (* the status tests of the life cycle in the model ARE the Go methods of x/market/types/market.go, and the guard of a resolution
    (result declared => not before the start, every winner is one of the market's outcomes) IS ticket.go ValidateWinnerOdds with its
    nested loops; Market.HasOdds IS the membership test used when a wager names an outcome (generated on every run) *)
